@@ -7,9 +7,12 @@
    reference's namespace (what changed and that nothing else did), and the state stays Good (C02_step); Good holds
    after Initialize (C02_init_good); hence every history of such calls conforms call by call (C02_history).
    Hypotheses: plain configuration, not read-only (the read-only half is C02_readonly_refuses), header-block counts
-   >= 1, the root is not removed / renamed onto, and create_pre for CreateFile, which excludes the two recorded
-   deviations (Proofs/T02Counter.v): content written through a handle resets the owner to 0:0 (known finding
-   C02-owner-reset-on-flush) and re-creating an existing file keeps its mtime.  OpenFile with arbitrary flags
+   >= 1, the root is not removed / renamed onto, and create_pre for CreateFile (size below 10^40; the name is not an
+   existing regular file), which excludes the one recorded deviation (Proofs/T02Counter.v (2)): re-creating an
+   existing file keeps its mtime (C02_create_existing: the call then has the reference's outcome and effect except
+   for that column).  There is no hypothesis on the process identity: since the flush of a written handle keeps the
+   owner of the entry (the former finding C02-owner-reset-on-flush, repaired), a new file written through its handle
+   is owned by the creating process, as in the reference.  OpenFile with arbitrary flags
    (CWriteFile) and the relation of abs to the walk (C13_walk_all_histories) are not part of these theorems.
    The reference itself is validated against afero OsFs by the side-by-side runs on the implementation. *)
 From Coq Require Import List NArith ZArith Bool.
@@ -33,7 +36,7 @@ Proof.
 Qed.
 
 Theorem C02_step : forall (hr : bool) (c : cfg), plain c -> 0 < c_rs c -> c_readonly c = false ->
-  forall (s : sys) (e : env) (k : call), Good hr c s -> hb_env e -> call_pre c (abs s) k ->
+  forall (s : sys) (e : env) (k : call), Good hr c s -> hb_env e -> call_pre (abs s) k ->
   let '(s', o) := step c (with_env s e) k in
   exists cid sp, spec_call c (abs s) k (ev_now e) cid = Some sp /\
     Good hr c s' /\ o = snd sp /\ ns_eq (abs s') (fst sp).
@@ -46,6 +49,18 @@ Proof. exact Good_init. Qed.
 Theorem C02_history : forall (hr : bool) (c : cfg), plain c -> 0 < c_rs c -> c_readonly c = false ->
   forall (r : list (call * env)) (s : sys), Good hr c s -> ok_run c s r -> conforms c s r /\ Good hr c (final c s r).
 Proof. exact T02_history. Qed.
+
+(* CreateFile on an existing regular file (excluded by create_pre): the reference's outcome, and the reference's
+   namespace with the old modification time put back - or no change at all when nothing is written to an empty file *)
+Theorem C02_create_existing : forall (hr : bool) (c : cfg), plain c -> 0 < c_rs c -> c_readonly c = false ->
+  forall s e n d v, Good hr c s -> hb_env e -> good n -> n <> [slash] -> clen d < 10 ^ 40 ->
+  lookup (abs s) n = Some v -> is_dir v = false ->
+  let '(s', o) := step c (with_env s e) (CCreateFile n d) in
+  exists cid, Good hr c s' /\ o = snd (spec_create_file c (abs s) n (clen d) (ev_now e) cid) /\
+    if (n_size v =? 0) && match d with [] => true | _ => false end then ns_eq (abs s') (abs s)
+    else ns_eq (abs s') (ns_upd (fst (spec_create_file c (abs s) n (clen d) (ev_now e) cid)) n
+                                (with_times (n_atime v) (n_mtime v))).
+Proof. exact T02_create_file_existing_reference. Qed.
 
 (* the subtree operations, stated on their own: exactly the reference's namespace *)
 Theorem C02_rename : forall (hr : bool) (c : cfg), plain c -> 0 < c_rs c -> c_readonly c = false ->
@@ -62,3 +77,4 @@ Proof. exact T02_remove_all. Qed.
 Print Assumptions C02_readonly_refuses.
 Print Assumptions C02_step.
 Print Assumptions C02_history.
+Print Assumptions C02_create_existing.
